@@ -12,7 +12,7 @@ from vlib.core import Result
 
 ID = "C13"
 LEVEL = "exploration"
-RULE = ("Hypothesis-generated histories (<=15 ops) over a fresh hierarchy A<-B<-C, B2(A) with generated declarations: "
+RULE = ("Hypothesis-generated histories (<=15 ops) over a fresh hierarchy A<-B<-C, B2(A), diamond D(B,B2) with generated declarations: "
         "namespace reads (list/param[n]/values()/repr/objects, which populate caches), class-level sets at every level, "
         "add_parameter at every level (new or existing names, via class or instance namespace), instance creation and "
         "instance sets; invariant after every op: static MRO lookup == .param view (names, identity, default, "
@@ -25,7 +25,7 @@ ASSUMPTIONS = [
 SIZES = {"quick": 2000, "thorough": 10000}
 
 NAMES = ["x", "y", "w", "v", "z0", "z1"]
-CLS = ["A", "B", "C", "B2"]
+CLS = ["A", "B", "C", "B2", "D"]
 
 
 def _mk(kind, val):
@@ -46,7 +46,7 @@ def _val(kind, val):
 
 _kind = st.sampled_from(["num", "int", "str"])
 _small = st.integers(0, 9)
-_cls = st.integers(0, 3)
+_cls = st.integers(0, 4)
 _name3 = st.integers(0, 2)
 _name = st.integers(0, len(NAMES) - 1)
 
@@ -68,7 +68,7 @@ def _ops():
 @st.composite
 def _case(draw):
     decl = []
-    for _c in range(4):
+    for _c in range(5):
         d = draw(st.lists(st.tuples(_name3, _kind, _small), max_size=3, unique_by=lambda t: t[0]))
         decl.append([list(t) for t in d])
     ops = draw(st.lists(_ops(), min_size=1, max_size=15))
@@ -95,14 +95,15 @@ def execute(case):
     kinds = {}   # name -> kind currently governing, per class (looked up dynamically through static)
 
     def ns(i):
-        return {NAMES[n]: _mk(k, v) for n, k, v in case["decl"][i]}
+        return {NAMES[n]: _mk(k, v) for n, k, v in (case["decl"][i] if i < len(case["decl"]) else [])}
 
     A = type("A", (param.Parameterized,), ns(0))
     B = type("B", (A,), ns(1))
     C = type("C", (B,), ns(2))
     B2 = type("B2", (A,), ns(3))
-    classes = [A, B, C, B2]
-    parents = {A: [], B: [A], C: [B, A], B2: [A]}
+    D = type("D", (B, B2), ns(4))     # diamond: MRO D, B, B2, A
+    classes = [A, B, C, B2, D]
+    parents = {A: [], B: [A], C: [B, A], B2: [A], D: [B, B2, A]}
     insts = []
     read_classes = set()
     nontrivial = False
